@@ -16,10 +16,15 @@ Where the code (hence the model) deviates from the guide, the deviation is prove
 * F-C03-2 is repaired (/repo 65de4a1): `match_local_is_match_value`, `match_local_same_id_spec`,
   `match_local_same_id_witness` — `match x` destructures a private copy, so the theorems about a
   subject held in a temporary (`Src.tmp`) cover it, patterns binding `x` included;
-* F-C03-3 `nonlast_alt_early_exit_witness` — alternatives other than the last one
-  (`pat_spec` is about the last alternative; `nonlast_alt_spec_partial` proves the same for every
-  other alternative on `earlyFree` patterns, i.e. excluding exactly the F-C03-3 shape;
-  `first_match` is stated over `mAlts`, i.e. over what the alternatives actually do).
+* F-C03-3 `nonlast_alt_early_exit_witness` — alternatives other than the last one, on the tree the
+  finding was recorded on.  For the repaired code (`Cfg.nestedLast`, /repo 075f64d) the statement
+  holds at full strength: `nonlast_alt_spec` (any well-formed pattern, any nesting, any position),
+  `first_alt_wins` / `matched_is_first_alt` / `unmatched_iff_no_alt` (all alternatives of an arm,
+  single- and multi-value), `selects_decl` / `skips_decl` / `arm_taken` (guards), and with
+  `Safe` (7886e40, 1750a1b) `pattern_never_raises` / `no_match_falls_through` without side
+  condition.  The `_partial` versions (`nonlast_alt_spec_partial`, `first_alt_wins_partial`,
+  `no_match_falls_through_partial`) hold for *every* `Cfg`, i.e. also for the code before the
+  repairs, under the hypothesis that excludes exactly the defect's shape.
 Frame: `pattern_frame` / `failed_pattern_frame` / `arm_frame` — matching or failing, only the
 pattern's own variables are ever written.
 -/
@@ -725,6 +730,16 @@ theorem arm_taken (F : FloatOps) (C : Cfg) (hC : C.nestedLast = true) (hS : Safe
     ∃ ρk, Agree (altsVars before) ρ ρk ∧ Selects F C arm (.tmp v) ρ (ρk.apply β) := by
   obtain ⟨ρk, hag, hm⟩ := first_alt_wins F C hC hS before a after v ρ β (by rw [← heq]; exact hw) hv hno hd
   refine ⟨ρk, hag, Or.inr ⟨by rw [heq]; simp, by rw [heq]; exact hm, fun g hgs => hg ρk g hgs hag⟩⟩
+
+/-! non-vacuity of the full-strength statements: the repaired configuration satisfies the
+hypotheses, and they cover the very pattern of F-C03-3 (which is not `earlyFree`) -/
+example : Cfg.repaired.nestedLast = true ∧ Safe Cfg.repaired := ⟨rfl, rfl, rfl⟩
+example : wf (.seq [.seq [.lit (.num (.i 1)), .lit (.num (.i 2))] none [], .lit (.num (.i 4))] none []) = true ∧
+    earlyFree (.seq [.seq [.lit (.num (.i 1)), .lit (.num (.i 2))] none [], .lit (.num (.i 4))] none []) = false := by
+  decide
+example : WfAlt (.many [.id 0 none, .wild none]) (.tuple [.null, .null]) :=
+  ⟨rfl, by simp, [.null, .null], rfl, rfl⟩
+example : WfAlt (.one (.id 0 none)) .null := rfl
 
 /-! ### concrete witnesses (replayed on the implementation by the harness) -/
 
